@@ -116,6 +116,28 @@ func (c *checker) startImage(s *server, e *sim.Ev) {
 	s.resetNotes()
 	s.state = Follower
 	s.startTerm, s.startMaxTerm = s.disk.kvi["CurrentTerm"], s.maxTerm
+	// freeze what checkStarted compares with: the new incarnation is live (it may install a
+	// snapshot or append entries) before the harness gets to read what it reports
+	d := s.disk
+	im := startImg{}
+	_, im.last = d.bounds()
+	im.ci, im.lc = d.latestLogCfg()
+	if sn := d.newest(); sn != nil {
+		im.hasSnap, im.snapIdx, im.snapCfg, im.snapCfgIdx = true, sn.index, sn.cfg, sn.cfgIdx
+		if sn.index > im.last {
+			im.last = sn.index
+		}
+	}
+	s.img = im
+}
+
+type startImg struct {
+	last                uint64
+	ci                  uint64
+	lc                  string
+	hasSnap             bool
+	snapIdx, snapCfgIdx uint64
+	snapCfg             string
 }
 
 // checkStarted compares what the new incarnation reports with the durable image.
@@ -146,23 +168,17 @@ func (c *checker) checkStarted(s *server, e *sim.Ev) {
 			c.violate("C10", "restart-wrong-snapshot-term", e.Seq, "%s restarted with snapshot position (%d, term %d) but the committed entry %d has term %d", key, si, stt, si, g.term)
 		}
 	}
-	// the image may have changed between Lstart and Lstarted only through the
-	// new incarnation itself (it is the only writer), so the current
-	// reconstruction is the image plus its own start-up writes.
-	_, hi := d.bounds()
-	wantLast := hi
-	if sn := d.newest(); sn != nil && sn.index > wantLast {
-		wantLast = sn.index
-	}
-	if last < wantLast {
-		c.violate("C10", "restart-wrong-last-index", e.Seq, "%s restarted reporting last index %d but its durable log/snapshot reach %d", key, last, wantLast)
+	// compared with the image the incarnation was created from (frozen at Lstart)
+	im := s.img
+	if last < im.last {
+		c.violate("C10", "restart-wrong-last-index", e.Seq, "%s restarted reporting last index %d but its durable log/snapshot reached %d when it started", key, last, im.last)
 	}
 	// configuration: latest configuration entry in the log above the snapshot, else the snapshot's
-	ci, lc := d.latestLogCfg()
+	ci, lc := im.ci, im.lc
 	wantCfg := ""
-	if sn := d.newest(); sn != nil {
-		wantCfg = sn.cfg
-		if ci <= sn.index && ci <= sn.cfgIdx {
+	if im.hasSnap {
+		wantCfg = im.snapCfg
+		if ci <= im.snapIdx && ci <= im.snapCfgIdx {
 			lc = ""
 		}
 	}
@@ -170,21 +186,24 @@ func (c *checker) checkStarted(s *server, e *sim.Ev) {
 		wantCfg = lc
 	}
 	if wantCfg != "" && cfg != wantCfg {
-		// the new incarnation may already have accepted entries; accept any
-		// configuration entry present in the log
+		// the new incarnation may already have accepted entries or installed a snapshot:
+		// accept any configuration present in its log or newest snapshot now
 		found := false
 		for _, p := range d.cfgs {
 			if p == cfg {
 				found = true
 			}
 		}
+		if sn := d.newest(); sn != nil && sn.cfg == cfg {
+			found = true
+		}
 		if !found {
-			c.violate("C10", "restart-wrong-configuration", e.Seq, "%s restarted reporting configuration [%s] but its durable state says [%s] (log configuration index %d)", key, cfg, wantCfg, ci)
+			c.violate("C10", "restart-wrong-configuration", e.Seq, "%s restarted reporting configuration [%s] but its durable state said [%s] (log configuration index %d)", key, cfg, wantCfg, ci)
 		}
 	}
 	// the configuration must also be the one the committed history had at that point: a
 	// snapshot that carries an older configuration than an entry it covers loses that entry
-	if sn := d.newest(); sn != nil && lc == "" {
+	if sn := d.newest(); sn != nil && lc == "" && im.hasSnap && sn.index == im.snapIdx {
 		var gi uint64
 		var gc string
 		for i, g := range c.G {
@@ -196,12 +215,12 @@ func (c *checker) checkStarted(s *server, e *sim.Ev) {
 			c.violate("C10", "restart-stale-configuration", e.Seq, "%s restarted reporting configuration [%s] (from its snapshot at index %d, configuration index %d) although configuration [%s] was committed at index %d, which that snapshot covers", key, cfg, sn.index, sn.cfgIdx, gc, gi)
 		}
 	}
-	if d.newest() != nil {
+	if im.hasSnap {
 		st := c.getStream(key)
 		if st.restores == 0 {
-			c.violate("C10", "restart-no-fsm-restore", e.Seq, "%s restarted with a complete snapshot on disk (index %d) but its FSM was not restored from it", key, d.newest().index)
-		} else if st.restIdx != d.newest().index && st.applied == 0 {
-			c.violate("C10", "restart-restored-older-snapshot", e.Seq, "%s restarted restoring snapshot index %d although a newer complete one (index %d) is on disk", key, st.restIdx, d.newest().index)
+			c.violate("C10", "restart-no-fsm-restore", e.Seq, "%s restarted with a complete snapshot on disk (index %d) but its FSM was not restored from it", key, im.snapIdx)
+		} else if st.firstRestIdx < im.snapIdx {
+			c.violate("C10", "restart-restored-older-snapshot", e.Seq, "%s restarted restoring snapshot index %d although a newer complete one (index %d) was on disk", key, st.firstRestIdx, im.snapIdx)
 		}
 		c.cov("restart-with-snapshot")
 	}
